@@ -51,7 +51,7 @@ class Ob:
 
 # ---------------------------------------------------------------- CrossHair plumbing
 
-GEN = WORK / 'gen'
+GEN = WORK / 'gen' / f'run{os.getpid()}'     # per run: concurrent runs (quick + thorough, seed checks) must not overwrite each other's wrappers
 
 
 def _modpath(harness: str) -> Path:
@@ -402,7 +402,14 @@ def replay_file(path: str) -> int:
     return 1 if label == spec['label'] else 0
 
 
+def _cleanup_gen():
+    import shutil
+    shutil.rmtree(GEN, ignore_errors=True)
+
+
 if __name__ == '__main__':
+    import atexit
+    atexit.register(_cleanup_gen)
     if len(sys.argv) >= 3 and sys.argv[2] == '--replay':
         sys.exit(replay_file(sys.argv[3]))
     if '--replay' in sys.argv:
